@@ -454,7 +454,12 @@ pub fn run(ctx: &Ctx, prop: &'static str, quick: u64, thorough: u64) -> Report {
         // ---- the same conversation over a real TCP socket on the loopback interface (run_on_tcp): the
         //      kernel chooses the chunking; callbacks and bytes must equal the in-memory run's
         if prop == "C02" && !ctx.miri && i % 8 == 0 && m.case.fault.err_at.is_none() {
-            match run_case_tcp(&case) {
+            // over a real socket the commands placed behind the modelled end of the connection are left
+            // out: closing a socket with unread input makes the kernel reset the connection, and a reset
+            // may discard bytes the peer has not read yet - an artefact of TCP, not of the server
+            let mut tcase = case.clone();
+            tcase.cmds.truncate(m.conv.cmds().len());
+            match run_case_tcp(&tcase) {
                 Err(e) => {
                     // an extra layer: the in-memory runs decide; without a loopback interface this one is skipped
                     rep.counters.inc("loopback_tcp_runs_not_possible");
